@@ -122,3 +122,19 @@ ORDER_PROGRAMS = [
     "main:\n    call f\n    li a7, 10\n    ecall\nf:\n    beqz a0, r2\n    li a0, 1\n    ret\nr2:\n    li a0, 2\n    mv a1, t3\n    ret\n",
 ]
 ORDER_PROGRAMS = [p for p in ORDER_PROGRAMS if p]
+
+# exit ecalls that are only recognisable after another exit has been cut, several exit numbers, a7 set far from the ecall
+EXIT_PROGRAMS = [
+    "main:\n    li a7, 10\n    beqz a0, quit\n    li a7, 93\n    ecall\nquit:\n    ecall\ncheck:\n    li a0, 0\n    ret\n",
+    "main:\n    li a7, 93\n    bnez a0, second\n    ecall\nsecond:\n    li a0, 1\n    ecall\n    addi a0, a0, 1\n",
+    "main:\n    li a7, 10\n    li a0, 3\nspin:\n    addi a0, a0, -1\n    bnez a0, spin\n    ecall\nafter:\n    li t0, 1\n    j after\n",
+    "main:\n    li a7, 1\n    li a0, 5\n    ecall\n    li a7, 10\n    beqz a0, out\n    li a7, 10\nout:\n    ecall\ntail:\n    nop\n",
+]
+# merges with different stack pointers, frame pointers, stores through an sp of unknown offset, sub-word neighbours
+STACK_PROGRAMS = [
+    "main:\n    addi sp, sp, -16\n    sw s0, 0(sp)\n    mv s1, sp\n    beqz a0, join\n    addi sp, sp, -16\njoin:\n    sw a1, 0(sp)\n    addi sp, s1, 0\n    lw s0, 0(sp)\n    addi sp, sp, 16\n    li a7, 10\n    ecall\n",
+    "main:\n    addi sp, sp, -16\n    sw s0, 0(sp)\n    mv s1, sp\n    bnez a0, deeper\n    j join\ndeeper:\n    addi sp, sp, -16\njoin:\n    sw a1, 16(sp)\n    mv sp, s1\n    lw s0, 0(sp)\n    addi sp, sp, 16\n    li a7, 10\n    ecall\n",
+    "main:\n    addi sp, sp, -16\n    sw s0, 8(sp)\n    li t0, 255\n    sb t0, 7(sp)\n    sh t0, 4(sp)\n    lw s0, 8(sp)\n    addi sp, sp, 16\n    li a7, 10\n    ecall\n",
+    "main:\n    addi sp, sp, -16\n    sw zero, 0(sp)\n    lw t0, 0(sp)\n    li t0, 7\n    addi t1, t0, 1\n    mv a0, t1\n    addi sp, sp, 16\n    li a7, 10\n    ecall\n",
+    "main:\n    addi sp, sp, -16\n    sw s0, 8(sp)\n    sb t0, 8(sp)\n    lw s0, 8(sp)\n    addi sp, sp, 16\n    li a7, 10\n    ecall\n",
+]
